@@ -9,7 +9,6 @@ import argparse
 import importlib
 import json
 import math
-import multiprocessing as mp
 import os
 import sys
 import time
@@ -78,8 +77,12 @@ def _task(args):
             clause = clauses[cname]
             rec = Recorder(known, prop, cname)
             nviol = 0
-            for i, case in enumerate(clause.enumerate(tier)):
-                if i % nshards != shard:
+            if clause.enum_sharded:
+                it = ((shard, c) for c in clause.enumerate(tier, shard, nshards))
+            else:
+                it = ((i % nshards, c) for i, c in enumerate(clause.enumerate(tier)))
+            for sh, case in it:
+                if sh != shard:
                     continue
                 try:
                     _run_case(clause, case, rec)
@@ -186,6 +189,10 @@ def _plan(prop, mod, tier, seed, only_clause, jobs):
 
 
 def main(argv=None) -> int:
+    argv = sys.argv[1:] if argv is None else argv
+    if argv[:1] == ["--worker"]:
+        _worker_main(argv[1], argv[2])
+        return 0
     ap = argparse.ArgumentParser()
     ap.add_argument("prop")
     ap.add_argument("--tier", default=os.environ.get("VERIF_TIER", "quick"), choices=["quick", "thorough"])
@@ -224,11 +231,7 @@ def main(argv=None) -> int:
         return 0
 
     tasks = _plan(prop, mod, a.tier, seed, a.clause, a.jobs)
-    ctx = mp.get_context("fork")
-    results = []
-    with ctx.Pool(processes=min(a.jobs, max(1, len(tasks))), maxtasksperchild=1) as pool:
-        for r in pool.imap_unordered(_task, tasks, chunksize=1):
-            results.append(r)
+    results = _run_tasks(tasks, a.jobs, a.tier)
     if hasattr(mod, "teardown_parent"):
         mod.teardown_parent()
 
@@ -236,9 +239,63 @@ def main(argv=None) -> int:
 
 
 def _in_child(task):
-    ctx = mp.get_context("fork")
-    with ctx.Pool(1) as pool:
-        return pool.apply(_task, (task,))
+    return _run_tasks([task], 1, "quick")[0]
+
+
+def _spawn(task, timeout):
+    """Runs one task in a fresh interpreter (python -m vf.run --worker): complete isolation of
+    the code under test's global state, no fork-with-threads hazards."""
+    import pickle
+    import subprocess
+    import tempfile
+
+    fd, path = tempfile.mkstemp(prefix="vf-task-", suffix=".pkl")
+    os.close(fd)
+    out_path = path + ".out"
+    with open(path, "wb") as f:
+        pickle.dump(task, f)
+    base = {"kind": task[0], "clause": None, "violations": [], "error": None, "rec": None, "wall": 0.0}
+    try:
+        try:
+            p = subprocess.run(
+                [sys.executable, "-m", "vf.run", "--worker", path, out_path],
+                stdin=subprocess.DEVNULL, stdout=subprocess.PIPE, stderr=subprocess.STDOUT,
+                timeout=timeout, cwd=core.HERE,
+            )
+        except subprocess.TimeoutExpired:
+            base["error"] = f"worker timed out after {timeout}s (inconclusive): task={task[0]} {task[4]!r}"
+            return base
+        if os.path.exists(out_path):
+            with open(out_path, "rb") as f:
+                return pickle.load(f)
+        base["error"] = f"worker exited rc={p.returncode} without a result:\n" + p.stdout.decode(errors="replace")[-3000:]
+        return base
+    finally:
+        for q in (path, out_path):
+            try:
+                os.remove(q)
+            except OSError:
+                pass
+
+
+def _run_tasks(tasks, jobs, tier):
+    from concurrent.futures import ThreadPoolExecutor
+
+    timeout = int(os.environ.get("VF_TASK_TIMEOUT", "1500" if tier == "quick" else "14400"))
+    with ThreadPoolExecutor(max_workers=max(1, min(jobs, len(tasks) or 1))) as ex:
+        return list(ex.map(lambda t: _spawn(t, timeout), tasks))
+
+
+def _worker_main(path, out_path):
+    import pickle
+
+    with open(path, "rb") as f:
+        task = pickle.load(f)
+    res = _task(task)
+    tmp = out_path + ".tmp"
+    with open(tmp, "wb") as f:
+        pickle.dump(res, f)
+    os.replace(tmp, out_path)
 
 
 def _report(prop, mod, a, seed, results, wall) -> int:
@@ -297,11 +354,17 @@ def _report(prop, mod, a, seed, results, wall) -> int:
     # write replay files for violations (dedupe)
     seen = set()
     vio_lines = []
-    for v in violations:
+    per_clause_n: dict[str, int] = {}
+    for v in sorted(violations, key=lambda v: (v["clause"], len(core.canon(v["case"])))):
         key = core.h64([v["clause"], v["case"]])
-        if key in seen:
+        sigkey = core.h64([v["clause"], v.get("signature") or v["msg"][:60]])
+        if key in seen or sigkey in seen:
             continue
         seen.add(key)
+        seen.add(sigkey)
+        per_clause_n[v["clause"]] = per_clause_n.get(v["clause"], 0) + 1
+        if per_clause_n[v["clause"]] > 6:
+            continue
         path = v.get("replay") or core.write_replay(prop, v["clause"], v["case"], v["msg"], v.get("signature"))
         vio_lines.append((v, os.path.relpath(path, core.HERE)))
 
